@@ -101,6 +101,8 @@ class C17(Prop):
                 w = rng.choice([rng.randint(-1, 1), rng.randint(1, n), n, rng.randint(n, n + 40), rng.randint(1, n + 40)])
             c["width"] = w
             c["pos"] = rng.choice(["start", "center", "end"]) if r < 0.96 else "middle"
+        if rng.random() < 0.2 and ax["stream"] == "A":
+            c["pre"] = {"k1": rng.randint(0, 5), "k2": rng.randint(0, 5), "lc": rng.random() < 0.7, "rc": rng.random() < 0.3, "crop_back": rng.random() < 0.5}
         return c
 
     def cases(self, rng, tier):
@@ -144,8 +146,21 @@ class C17(Prop):
         from soundevent.arrays import operations as O
 
         arr = self._build(c["axis"])
-        before = self._obs_axis(arr)
         fl = lambda x: None if x is None else float(x)
+        pre = c.get("pre")
+        if pre:
+            # the array under test is itself the result of earlier operations (it carries whatever attributes they left behind);
+            # the operation is then judged on that array as observed
+            ax = c["axis"]
+            s0, st, n0 = ax["start"], ax["step"], ax["n"]
+            e1 = guarded(O.extend_dim, arr, "time", start=fl(s0 - pre["k1"] * st), stop=fl(s0 + (n0 - 1 + pre["k2"]) * st + st / 2),
+                         fill_value=float(c["fill"]), left_closed=pre["lc"], right_closed=pre["rc"])
+            if e1[0] == "ok":
+                # ... and cropped back to the original extent: same coordinates and data as the fresh array, different history
+                e2 = guarded(O.crop_dim, e1[1], "time", start=fl(s0), stop=fl(s0 + (n0 - 1) * st + st / 2))
+                if e2[0] == "ok" and e2[1].sizes["time"] == n0:
+                    arr = e2[1]
+        before = self._obs_axis(arr)
         k = c["kind"]
         if k == "crop":
             r = guarded(O.crop_dim, arr, "time", start=fl(c["start"]), stop=fl(c["stop"]), right_closed=c["right_closed"], left_closed=c["left_closed"])
